@@ -49,7 +49,7 @@ def rows(thorough, rng):
                             and ob != "disabled" and fr == 0)
                 via = rng.choice(vias) if not (thorough or critical) else None
                 # "whatever the remaining settings are": the observability listener's own bind host (unset = the gRPC host)
-                hh = rng.choice(HHOSTS) if not (thorough or critical) else None
+                hh = rng.choice(HHOSTS) if not critical else None          # thorough: all routes; all observability hosts only on the boundary
                 for v in ([via] if via else vias):
                     for (hhost, hloop) in ([hh] if hh else HHOSTS[1:]):
                         out.append("cfgrow env=%s envclass=%s fsync=%s snap=%s recovery=%s strategy=%s auth=%d rl=%d "
@@ -92,6 +92,7 @@ def run(tier, seed, replay):
     rng = rng_for(seed, "C18")
     lines = [l for l in open(replay).read().split("\n") if l.startswith("cfgrow")] if replay else rows(thorough, rng)
     findings, n_accept, mism, unsafe = [], 0, [], []
+    all_res = []
     accept_by_env = {}
     for c0 in range(0, len(lines), 4000):
         part = lines[c0:c0 + 4000]
@@ -99,6 +100,7 @@ def run(tier, seed, replay):
         mres, merr, mrc = run_driver("config", ann) if ok or os.path.exists(DRIVER) else ([], "", 1)
         for i, l in enumerate(part):
             r = res[i] if i < len(res) else "<missing>"
+            all_res.append(r)
             f = fields(l)
             if canon(r) == "accept":
                 n_accept += 1
@@ -123,6 +125,7 @@ def run(tier, seed, replay):
             "details": {k: info.get(k) for k in ("errors", "source_scan_hits", "axioms", "translator")},
             "search": "every row of the cross product through the real loader: no unsafe configuration accepted"})
         rep.violation(p, no_input=True)
+    scov = server_exit_stage(rep, lines, all_res, thorough, rng) if not replay else {}
     proof_coverage(rep, info, "python3 translators/xlate_config.py && cd lean && lake build %s && <#print axioms audit>" % MODULE, TRUSTED)
     rep.coverage.update({
         "programs": 1,
@@ -141,8 +144,58 @@ def run(tier, seed, replay):
         "exhaustive": bool(thorough),
         "harness_build_s": round(bsecs, 1),
     })
+    rep.coverage.update(scov)
     rep.assumptions = ["hosts that are neither IP literals nor 'localhost' but start with '127.' are outside the generated table"]
     return rep.finish()
+
+
+def server_exit_stage(rep, lines, results, thorough, rng):
+    """`... and the server refuses to start on a rejected configuration`: the REAL kyrodb_server binary on files of rejected
+    (and, as a control, accepted) rows: exit status / keeps running"""
+    from .. import rpc
+    import subprocess, signal
+    sok, slog, ssecs = rpc.server_build()
+    if not sok:
+        rep.violation(rep.write_replay("server_build.log", slog[-4000:]), no_input=True)
+        return {}
+    rows = [(l, r) for l, r in zip(lines, results) if (" via=toml" in l or " via=yaml" in l)]
+    rej = [x for x in rows if canon(x[1]) == "reject" and not safe(fields(x[0]))]
+    acc = [x for x in rows if canon(x[1]) == "accept" and " tls=0" in x[0] and "hhost=-" in x[0] and " loop=1" in x[0]]
+    pick = rng.sample(rej, min(len(rej), 40 if thorough else 12)) + rng.sample(acc, min(len(acc), 6 if thorough else 3))
+    d = scratch()
+    emit = []
+    for i, (l, r) in enumerate(pick):
+        path = os.path.join(d, "c18_%d.%s" % (i, "yaml" if " via=yaml" in l else "toml"))
+        emit.append((l + " emit=" + path, path, r))
+    run_harness("config", [e[0] for e in emit])
+    open(os.path.join(d, "keys.yaml"), "w").write("api_keys:\n  - key: kyro_ta_%s\n    tenant_id: ta\n    tenant_name: ta\n    max_qps: 0\n    max_vectors: 10\n    enabled: true\n" % ("a" * 32))
+    outcomes = {"rejected:exit-nonzero": 0, "rejected:STARTED": 0, "accepted:running": 0, "accepted:exited": 0}
+    bad = None
+    for k, (line, path, r) in enumerate(emit):
+        env = dict(ENV, RUST_LOG="off")
+        for key in list(env):
+            if key.startswith("KYRODB__"):
+                env.pop(key)
+        port = 33000 + (os.getpid() * 7 + k) % 20000
+        p = subprocess.Popen([rpc.SERVER_BIN, "--config", path, "--port", str(port), "--data-dir", os.path.join(d, "c18data_%d" % k)],
+                             cwd=d, env=env, stdout=subprocess.DEVNULL, stderr=subprocess.DEVNULL)
+        try:
+            rc = p.wait(timeout=4 if canon(r) == "reject" else 2.5)
+        except subprocess.TimeoutExpired:
+            rc = None
+            p.send_signal(signal.SIGKILL); p.wait()
+        if canon(r) == "reject":
+            if rc is None or rc == 0:
+                outcomes["rejected:STARTED"] += 1
+                bad = bad or (line, "the server binary keeps running / exits 0 on a configuration the loader rejects (rc=%s)" % rc)
+            else:
+                outcomes["rejected:exit-nonzero"] += 1
+        else:
+            outcomes["accepted:running" if rc is None else "accepted:exited"] += 1
+    if bad:
+        p = rep.write_replay("server_started_on_rejected_config.ops", "# engine=config\n# ORACLE FAILURE: %s\n%s\n" % (bad[1], bad[0]))
+        rep.violation(p)
+    return {"server_exit_status": outcomes, "server_build_s": round(ssecs, 1)}
 
 
 def run_cmd_translator():
